@@ -120,6 +120,9 @@ theorem C29_no_loss (P : Params) (s s' : State) (a : Action) (hi : Inv P s) (h :
   | failedUpload =>
     simp only [step, Option.some.injEq] at h
     subst h; exact hx
+  | readFault =>
+    simp only [step, Option.some.injEq] at h
+    subst h; exact hx
 
 /-- C29, "never invents": only a newly shipped block brings a new sample; a compaction result
     holds nothing but samples of the blocks it was compacted from. -/
@@ -196,6 +199,9 @@ theorem C29_no_invention (P : Params) (s s' : State) (a : Action) (hns : a ≠ .
   | failedUpload =>
     simp only [step, Option.some.injEq] at h
     subst h; exact hx
+  | readFault =>
+    simp only [step, Option.some.injEq] at h
+    subst h; exact hx
 
 
 /-! ### the planner is not part of the model: ANY plan over the compactor's view is allowed -/
@@ -237,6 +243,14 @@ theorem C29_any_plan (P : Params) (s : State) (ids : List Nat) (hne : ids ≠ []
   cases plan with
   | nil => exact absurd rfl hpne
   | cons a l => exact ⟨_, rfl⟩
+
+/-- A failed read of a meta.json or of a marker during a sync never changes the bucket: what it may
+    do is abort the iteration (block family, `C33_classify`: which read outcomes make the view
+    incomplete, and that an incomplete view leads to no write).  In particular it may not make a
+    complete block look like an aborted upload to `BestEffortCleanAbortedPartialUploads` — the
+    harness injects such faults (call error, body cut in the middle, on 72 h old blocks) into the
+    full compactor iteration and validates the recorded bucket history against this. -/
+theorem C29_readFault_no_change (P : Params) (s : State) : step P s .readFault = some s := rfl
 
 /-! ### "once compaction finishes each sample is served exactly once" -/
 
@@ -408,6 +422,9 @@ theorem step_lam (P : Params) (s s' : State) (a : Action) (hi : Inv P s) (hl : L
     simp only [step, Option.some.injEq] at h
     subst h
     exact ⟨fun b hb x hx => by have := hl.src_lt b hb x hx; simp only; omega, hl.laminar⟩
+  | readFault =>
+    simp only [step, Option.some.injEq] at h
+    subst h; exact hl
 
 theorem run_lam (P : Params) (hT : P.levelTie = true) : ∀ (acts : List Action) (s s' : State),
     s.gws = [] → Inv P s → Lam s → run P s acts = some s' → Lam s'
@@ -496,6 +513,28 @@ theorem C29_fact_compact_order :
     skeleton `marksReached` is defined): marks are placed only after the result upload returned nil -/
 theorem C29_fact_marks_only_after_upload :
     marksReached Thanos.Facts.groupCompactUploadGuard true = false := C34_fact_marks_only_after_upload.2.1
+
+/-- the full iteration of cmd/thanos/compact.go the harness replays: (definition of cleanPartialMarked with
+    BestEffortCleanAbortedPartialUploads over `sy.Partial()`), then in compactMainFn: compactor.Compact,
+    retention, cleanPartialMarked; cleanPartialMarked once more as the periodic cleanup -/
+theorem C29_fact_main_fn :
+    Thanos.Facts.compactMainFnOrder = ["BestEffortCleanAbortedPartialUploads", "compactor.Compact",
+      "ApplyRetentionPolicyByResolution", "cleanPartialMarked", "cleanPartialMarked"] ∧
+    Thanos.Facts.cleanPartialArg = "sy.Partial()" := by decide
+
+/-- `loadMeta` reads the whole object before it parses: a failed READ is an error of the sync
+    (incomplete view, nothing is written), only a failed PARSE makes the block "partial" — and
+    partial blocks older than 48 h are what the cleaner deletes.  This is the implementation side of
+    `C29_readFault_no_change`. -/
+theorem C29_fact_load_meta : Thanos.Facts.loadMetaDecode = ["io.ReadAll", "json.Unmarshal"] := by decide
+
+/-- Known finding (object store that lies): if the only block holding a sample is deleted without
+    having been marked — which is what the partial-upload cleaner does to a 72 h old complete block
+    whose meta.json the store transiently reports as "not found" — the cover is gone.  No action of
+    the model does this; the real code does under that fault (class `sample-lost-after-notfound-lie`). -/
+theorem C29_unmarked_delete_breaks_cover :
+    let s : State := { now := 0, blocks := [{ id := 1, level := 1, sources := [1], mark := none }], gws := [], nextId := 2 }
+    (∃ b ∈ s.blocks, 1 ∈ b.sources) ∧ ¬ (∃ b ∈ (s.blocks.filter (fun c => c.id != 1)), 1 ∈ b.sources) := by decide
 
 /-- one iteration of `BucketCompactor.Compact`: sync, clean, garbage-collect, then plan -/
 theorem C29_fact_loop_order :
